@@ -101,11 +101,22 @@ class Folder:
             vals = [self.fold(v) for v in node.values]
             if any(isinstance(v, list) for v in vals):
                 raise Unfoldable("boolean operator on a list")
-            return all(bool(v) for v in vals) if isinstance(node.op, ast.And) else any(bool(v) for v in vals)
+            if isinstance(node.op, ast.And):
+                for v in vals:
+                    if not v:
+                        return v
+                return vals[-1]
+            for v in vals:
+                if v:
+                    return v
+            return vals[-1]
         if isinstance(node, ast.IfExp):
             d = self.decide(node.test) if self.decide else None
             if d is None:
-                raise Unfoldable(f"undecided condition {unparse(node.test)}")
+                t = self.fold(node.test)
+                if isinstance(t, list):
+                    raise Unfoldable(f"undecided condition {unparse(node.test)}")
+                d = bool(t)
             return self.fold(node.body if d else node.orelse)
         if isinstance(node, ast.Subscript):
             base = self.fold(node.value)
@@ -131,6 +142,10 @@ class Folder:
             if isinstance(base, list) and isinstance(i, int) and not isinstance(i, bool) and -len(base) <= i < len(base):
                 return base[i]
             raise Unfoldable("subscript")
+        if isinstance(node, ast.Compare) and len(node.ops) == 1 and isinstance(node.ops[0], (ast.Is, ast.IsNot)):
+            a, b = self.fold(node.left), self.fold(node.comparators[0])
+            same = (a is b) or (a is None and b is None) or (isinstance(a, bool) and isinstance(b, bool) and a == b)
+            return same if isinstance(node.ops[0], ast.Is) else not same
         if isinstance(node, ast.Compare) and len(node.ops) == 1 and isinstance(node.ops[0], (ast.Lt, ast.Gt, ast.LtE, ast.GtE, ast.Eq, ast.NotEq)):
             a, b = self.fold(node.left), self.fold(node.comparators[0])
             f = {ast.Lt: lambda x, y: int(x < y), ast.Gt: lambda x, y: int(x > y), ast.LtE: lambda x, y: int(x <= y), ast.GtE: lambda x, y: int(x >= y), ast.Eq: lambda x, y: int(x == y), ast.NotEq: lambda x, y: int(x != y)}[type(node.ops[0])]
